@@ -73,6 +73,9 @@ def cases(tier, seed):
         for nie in (False, True):
             for bad in ('error', 'fail'):
                 yield [w, nie, 0, bad]
+    for where in ('unit', 'layer_test', 'nowhere'):
+        for mode in ('resumed', 'j2'):
+            yield ['cwd', where, mode]
     for rk in DISK_ROOTS:
         for fi in range(len(DISK_FILTERS)):
             yield ['disk', rk, fi]
@@ -84,7 +87,10 @@ def cases(tier, seed):
 # layer names that are not plain identifiers: the name travels to the child
 # through --resume-layer and is compared / matched there
 HOSTILE = ['a.b', 'a_b', 'ab', 'a', 'x[y]', 'p+q', 'L(1)', 'a|b', 'a*', 'a?b',
-           'a b', 'a$', 'a\\b', 'a.', 'a{1}']
+           'a b', 'a$', 'a\\b', 'a.', 'a{1}',
+           # the same short name in two modules whose dotted names are in a
+           # suffix / prefix relation
+           'vtw.tests:DB', 'xvtw.tests:DB', 'vtw.tests:DB2', 'vtw.testsx:DB']
 NAME_MODES = {'seq': (False, []), 'resumed': (True, []), 'j2': (False, ['-j2']),
               'resumed_v': (True, ['-vv']), 'j3_layer': (False, ['-j3', '--layer', '.'])}
 
@@ -95,10 +101,19 @@ def run_names_case(names, mode):
     if nie:
         layers[0]['f'] = {'tearDown': 'NIE'}
     tests = [{'n': 'z0', 'l': 'AAA', 's': 'pass'}]
+    seen_short = set()
     for i, nm in enumerate(names):
-        layers.append({'n': nm, 'b': [], 'k': 'i', 'h': list(worlds.HOOKS_SD)})
-        tests.append({'n': 'q%d' % i, 'l': nm, 's': 'pass'})
-        tests.append({'n': 'q%db' % i, 'l': nm, 's': 'pass'})
+        L = {'n': nm, 'b': [], 'k': 'i', 'h': list(worlds.HOOKS_SD)}
+        if ':' in nm:
+            mod, short = nm.split(':')
+            if short in seen_short:
+                short = short + '_'        # (spec layer names are keys)
+            L = {'n': short, 'm': mod, 'b': [], 'k': 'i', 'h': list(worlds.HOOKS_SD)}
+            L['rn'] = nm.split(':')[1]
+        seen_short.add(L['n'])
+        layers.append(L)
+        tests.append({'n': 'q%d' % i, 'l': L['n'], 's': 'pass'})
+        tests.append({'n': 'q%db' % i, 'l': L['n'], 's': 'pass'})
     spec = {'layers': layers, 'tests': tests}
     r = runrt.run_world(spec, argv)
     viol = []
@@ -223,6 +238,40 @@ def run_disk_case(rk, fi):
     return viol
 
 
+# ---- real processes, a RELATIVE search path and tests that change the cwd
+def run_cwd_case(where, mode):
+    """Layer A cannot be torn down (resumed mode) and one of its tests / its
+    setUp does os.chdir('/') and never goes back; the layers after it run in
+    child processes started later."""
+    A = {'n': 'A', 'b': [], 'k': 'c', 'h': list(worlds.HOOKS_SD)}
+    if mode == 'resumed':
+        A['f'] = {'tearDown': 'NIE'}
+    layers = [A, {'n': 'B', 'b': [], 'k': 'c', 'h': list(worlds.HOOKS_SD)},
+              {'n': 'C', 'b': [], 'k': 'c', 'h': list(worlds.HOOKS_SD)}]
+    tests = [{'n': 'u0', 'l': None, 's': 'chdir' if where == 'unit' else 'pass'},
+             {'n': 'a0', 'l': 'A', 's': 'chdir' if where == 'layer_test' else 'pass'},
+             {'n': 'b0', 'l': 'B', 's': 'pass'}, {'n': 'b1', 'l': 'B', 's': 'pass'},
+             {'n': 'c0', 'l': 'C', 's': 'pass'}]
+    spec = {'layers': layers, 'tests': tests}
+    argv = ['-j2'] if mode == 'j2' else []
+    res = runrt.run_cli(spec, argv, timeout=120, relpath=True)
+    ran = collections.Counter(ev[2] for ev in res.trace if ev[1] == 't' and ev[3] == 'body')
+    want = collections.Counter({t['n']: 1 for t in tests})
+    viol = []
+    sig = {'part': 'cwd', 'mode': mode}
+    d = 'relative --path, os.chdir in %s, %s: ' % (where, mode)
+    if ran != want:
+        viol.append({'clause': 'executed_multiset', 'sig': sig,
+                     'detail': d + 'executed %s, expected every test once\n%s' % (dict(ran), res.text[-800:])})
+    if res.rc != 0:
+        viol.append({'clause': 'verdict_failed_for_passing_world', 'sig': sig,
+                     'detail': d + 'exit status %r\n%s' % (res.rc, res.text[-800:])})
+    m = runrt.TOTAL_RE.search(res.text)
+    if not m or int(m.group(1)) != len(tests):
+        viol.append({'clause': 'totals', 'sig': sig, 'detail': d + 'Total line %r' % (m and m.group(0),)})
+    return viol
+
+
 def build(w, nie):
     tests = []
     tree = []
@@ -282,6 +331,9 @@ def parse_listing(text):
 
 
 def run_case(case):
+    if case[0] == 'cwd':
+        viol = run_cwd_case(case[1], case[2])
+        return {'evals': 1, 'nontrivial': 1, 'violations': viol, 'outcome': ('cwd', case[2]), 'nogate': True}
     if case[0] == 'disk':
         viol = run_disk_case(case[1], case[2])
         return {'evals': 2, 'nontrivial': 2, 'violations': viol, 'outcome': ('disk', case[1])}
